@@ -714,6 +714,9 @@ class Interp:
                 return self.global_lookup(v.table[1], name)
             if name in v.table:
                 return v.table[name]
+            if default is KeyError:
+                # a library namespace (numpy, re, math ...): what is not in the model is a GAP, never an AttributeError
+                raise AnalysisError(f"peval: {v.name}.{name} is not modelled")
         elif isinstance(v, SArr):
             if name == "__class__":
                 return Obj("pytype", {"__name__": "ndarray"}, name="ndarray")
